@@ -64,6 +64,14 @@ theorem fact_dag_framing_body :
     Facts.C17.isJWSSerializationBody =
       "{ if trimmed := bytes.TrimLeftFunc(input, unicode.IsSpace); len(trimmed) > 0 && trimmed[0] == '{' { return true } segments := bytes.Split(input, []byte{'.'}) if len(segments) != 3 { return false } for _, segment := range segments { decoded, err := base64.RawURLEncoding.DecodeString(string(segment)) if err != nil || base64.RawURLEncoding.EncodeToString(decoded) != string(segment) { return false } } return true }" := by rfl
 
+set_option maxRecDepth 4000 in
+/-- parseSignatureParams: exactly one of `kid` header / embedded `jwk`, with no exception (in particular not "the kid header
+    equals the embedded key's own kid member", which is attacker-chosen text) -/
+theorem fact_dag_kid_xor_jwk :
+    Facts.C17.parseSignatureParamsErrConds =
+      ["(transaction.signingKey != nil && transaction.signingKeyID != \"\") || (transaction.signingKey == nil && transaction.signingKeyID == \"\")"] := by
+  rfl
+
 /-- tokenV2 credentialIsSecure: exactly one signature, allow-listed algorithm, none of jwk / jku / x5c / x5u -/
 theorem fact_apiToken :
     Facts.C17.apiPolicy.sigRule = .exactlyOne ∧
